@@ -179,7 +179,10 @@ func instrumentDir(dir, outDir, virtDir string, harness bool, replace map[string
 			}
 			continue
 		}
-		r := &rewriter{fset: fset, info: info, file: p.name, stats: stats, harness: harness}
+		r := &rewriter{fset: fset, info: info, file: p.name, stats: stats, harness: harness, noWrap: map[*ast.Ident]bool{}}
+		if !harness {
+			r.captured = capturedVars(p.f, info)
+		}
 		r.file_(p.f)
 		if !r.changed && !harness {
 			continue
@@ -207,7 +210,9 @@ func instrumentDir(dir, outDir, virtDir string, harness bool, replace map[string
 }
 
 type rewriter struct {
-	harness bool
+	captured map[types.Object]bool // local variables referenced from a nested function literal
+	noWrap   map[*ast.Ident]bool   // identifiers on the left of := (declarations, not accesses)
+	harness  bool
 	fset    *token.FileSet
 	info    *types.Info
 	file    string
@@ -727,6 +732,11 @@ func (r *rewriter) wrapAccess(e ast.Expr, write bool) ast.Expr {
 // lvalue instruments an assignment target.
 func (r *rewriter) lvalue(e ast.Expr) ast.Expr {
 	switch x := e.(type) {
+	case *ast.Ident:
+		if r.captured[r.info.Uses[x]] && !r.noWrap[x] {
+			return r.wrapAccess(x, true)
+		}
+		return x
 	case *ast.SelectorExpr:
 		if r.isFieldSel(x) && r.chainOK(x) {
 			return r.wrapAccess(x, true)
@@ -748,8 +758,27 @@ func (r *rewriter) lvalue(e ast.Expr) ast.Expr {
 // raceNode handles the node kinds that need pre-order treatment.
 func (r *rewriter) raceNode(n ast.Node) (ast.Node, bool) {
 	switch x := n.(type) {
+	case *ast.Ident:
+		if r.captured[r.info.Uses[x]] && !r.noWrap[x] {
+			return r.wrapAccess(x, false), true
+		}
+		return nil, false
+	case *ast.RangeStmt:
+		if x.Tok == token.DEFINE {
+			for _, e := range []ast.Expr{x.Key, x.Value} {
+				if id, ok := e.(*ast.Ident); ok {
+					r.noWrap[id] = true
+				}
+			}
+		}
+		return nil, false
 	case *ast.AssignStmt:
 		if x.Tok == token.DEFINE {
+			for _, e := range x.Lhs {
+				if id, ok := e.(*ast.Ident); ok {
+					r.noWrap[id] = true
+				}
+			}
 			return nil, false
 		}
 		if len(x.Lhs) == 2 && len(x.Rhs) == 1 {
@@ -771,6 +800,9 @@ func (r *rewriter) raceNode(n ast.Node) (ast.Node, bool) {
 		if x.Op == token.AND && r.isFieldSel(x.X) && r.chainOK(x.X) {
 			return x, true // &x.f: taking the address is not an access
 		}
+		if id, ok := x.X.(*ast.Ident); ok && x.Op == token.AND && r.captured[r.info.Uses[id]] {
+			return x, true
+		}
 	case *ast.CallExpr:
 		if id, ok := x.Fun.(*ast.Ident); ok && id.Name == "delete" && len(x.Args) == 2 && r.isFieldSel(x.Args[0]) && r.chainOK(x.Args[0]) {
 			x.Args[0] = r.wrapAccess(x.Args[0], true)
@@ -783,4 +815,38 @@ func (r *rewriter) raceNode(n ast.Node) (ast.Node, bool) {
 		}
 	}
 	return nil, false
+}
+
+// capturedVars finds the local variables (parameters and results included)
+// that are referenced from inside a function literal nested in the function
+// that declares them: the only locals two goroutines can share.
+func capturedVars(f *ast.File, info *types.Info) map[types.Object]bool {
+	out := map[types.Object]bool{}
+	var lits []*ast.FuncLit
+	ast.Inspect(f, func(n ast.Node) bool {
+		if fl, ok := n.(*ast.FuncLit); ok {
+			lits = append(lits, fl)
+		}
+		return true
+	})
+	for _, fl := range lits {
+		ast.Inspect(fl.Body, func(n ast.Node) bool {
+			id, ok := n.(*ast.Ident)
+			if !ok {
+				return true
+			}
+			v, ok := info.Uses[id].(*types.Var)
+			if !ok || v.IsField() || v.Pkg() == nil {
+				return true
+			}
+			if v.Parent() == v.Pkg().Scope() {
+				return true // package level
+			}
+			if v.Pos() < fl.Pos() || v.Pos() > fl.End() {
+				out[v] = true
+			}
+			return true
+		})
+	}
+	return out
 }
